@@ -71,6 +71,15 @@ type structMapArg struct {
 	A map[string]sio.Binary `json:"a"`
 }
 
+// structNilArg: a struct whose nil-able fields (pointer, interface) come first; a peer that omits them or sends
+// null leaves them nil while the reconstruction still walks the struct.
+type structNilArg struct {
+	P *structArg  `json:"p"`
+	X any         `json:"x"`
+	A sio.Binary  `json:"a"`
+	Q *sio.Binary `json:"q"`
+}
+
 // typedFamilies: statically typed containers of Binary as handler arguments. They are decoded at the
 // decoder level only (the process half registers the five families above).
 var typedFamilies = []family{
@@ -81,6 +90,8 @@ var typedFamilies = []family{
 	{"slice-of-binary", inTypes(func([]sio.Binary) {})},
 	{"slice-of-any", inTypes(func([]any) {})},
 	{"binary-binary", inTypes(func(sio.Binary, sio.Binary) {})},
+	{"struct-with-nil-pointer-and-interface-fields", inTypes(func(structNilArg) {})},
+	{"pointer-to-struct-with-nil-fields", inTypes(func(*structNilArg) {})},
 }
 
 func familiesFor(typ parser.PacketType) []family {
